@@ -139,6 +139,14 @@ func Open(path string, freeList *freelist.FreeList, fileCache *filecache.FileCac
 	if err != nil {
 		return nil, err
 	}
+	// A crash during a flush can leave an incomplete record at the end of the
+	// last file. Cut it off, otherwise new records get appended after it and
+	// GC, which reads a file record by record, mis-parses everything that
+	// follows.
+	length, err = truncateIncompleteRecord(file, length)
+	if err != nil {
+		return nil, err
+	}
 
 	mp := &MultihashPrimary{
 		basePath:    path,
@@ -158,6 +166,33 @@ func Open(path string, freeList *freelist.FreeList, fileCache *filecache.FileCac
 	}
 
 	return mp, nil
+}
+
+// truncateIncompleteRecord removes a partially written record from the end of
+// a primary file and returns the resulting file length. Records are only ever
+// appended, so only the last record can be incomplete.
+func truncateIncompleteRecord(file *os.File, length int64) (int64, error) {
+	sizeBuf := make([]byte, sizePrefixSize)
+	var pos int64
+	for pos+sizePrefixSize <= length {
+		if _, err := file.ReadAt(sizeBuf, pos); err != nil {
+			return 0, err
+		}
+		size := binary.LittleEndian.Uint32(sizeBuf) &^ deletedBit
+		next := pos + sizePrefixSize + int64(size)
+		if next > length {
+			break
+		}
+		pos = next
+	}
+	if pos == length {
+		return length, nil
+	}
+	log.Warnw("Removing incomplete record from end of primary file", "file", file.Name(), "at", pos, "bytes", length-pos)
+	if err := file.Truncate(pos); err != nil {
+		return 0, err
+	}
+	return pos, nil
 }
 
 func (mp *MultihashPrimary) StartGC(freeList *freelist.FreeList, interval, timeLimit time.Duration, updateIndex UpdateIndexFunc) {
